@@ -297,6 +297,12 @@ def generate(r, tier, prop):
             c_ = r.choice(sorted(classes))
             steps.append({"op": "late_inv", "unit": c_, "check_on": r.choice(inv_mix)})
             classes[c_]["has_inv"] = True
+            desc_ = sorted(d_ for d_ in classes if d_ != c_ and c_ in mro(d_))
+            if desc_ and r.random() < 0.5:
+                # ... and then one of its subclasses, which was created before the base got its invariant
+                d_ = r.choice(desc_)
+                steps.append({"op": "late_inv", "unit": d_, "check_on": r.choice(inv_mix)})
+                classes[d_]["has_inv"] = True
             continue
         # decorating a member of an already created class (K.m = require(...)(K.m)) or appending through the documented helper
         if classes and r.random() < 0.4:
